@@ -852,6 +852,64 @@ func makeRingBFS(c *rcfg, joins *[3]int64) *mc.BFS[rop] {
 	}
 }
 
+// listLong is a fixed pseudo-random walk through the list alphabet with a
+// large length bound (mc.LongWalk): growth is favoured, Truncate and Clear are
+// rare, so the list stays long and cursors go stale now and then.
+type listLong struct {
+	MaxLen  int    `json:"max_len"`
+	Cursors int    `json:"cursors"`
+	Steps   int    `json:"steps"`
+	Seed    uint64 `json:"seed"`
+	Root    int    `json:"root"`
+}
+
+var lcntLong lcounters
+
+var listLongMax int64 // longest list any walk reached (vacuity indicator)
+
+func checkListLong(l listLong) *mc.Failure {
+	return mc.GuardTL("list-long", l, 10*time.Minute, func() *mc.Failure {
+		inst, f := makeListBFS(&lcfg{MaxLen: l.MaxLen, Cursors: l.Cursors}, &lcntLong).Root(l.Root)
+		if f != nil {
+			return f
+		}
+		n := func() int {
+			k := len(inst.(*linst).ids)
+			for {
+				old := atomic.LoadInt64(&listLongMax)
+				if int64(k) <= old || atomic.CompareAndSwapInt64(&listLongMax, old, int64(k)) {
+					return k
+				}
+			}
+		}
+		f, hist := mc.LongWalk[lop](inst, l.Steps, l.Seed, func(o lop) int {
+			switch o.K {
+			case "push", "add1", "add2":
+				return 12 * (n() + 2)
+			case "set", "next":
+				return 4 * (n() + 2)
+			case "remove":
+				return 5 * (n() + 2)
+			case "truncate":
+				return (n() + 2) / 6
+			case "clear":
+				return (n() + 2) / 20
+			case "last", "end":
+				return n()/4 + 1
+			}
+			return 1 // at(n), find(n): one entry per position
+		})
+		if f != nil {
+			if len(f.Msg) > 500 {
+				f.Msg = f.Msg[:500] + "..."
+			}
+			tail := hist[max(len(hist)-6, 0):]
+			f.Msg = fmt.Sprintf("walk of %d calls on a list of up to %d elements, call %d; last calls %v: %s", l.Steps, l.MaxLen, f.Step, tail, f.Msg)
+		}
+		return f
+	})
+}
+
 // ringLong is a fixed long history on one ring of N elements.
 type ringLong struct {
 	N    int `json:"n"`
@@ -951,7 +1009,39 @@ func main() {
 				return makeListBFS(&cf, &local).Replay(c)
 			},
 		},
-		seqHarness("stack"), seqHarness("queue"),
+		seqHarness("stack"), seqHarness("queue"), seqLongHarness(),
+		mc.Harness{
+			Name: "list-long", HangLimit: 10 * time.Minute,
+			Explore: func(r *mc.Run) {
+				var cases []listLong
+				for _, n := range mc.Pick(r, []int{17, 33, 65, 130}, []int{17, 33, 65, 130, 300, 1025}) {
+					for seed := uint64(1); seed <= 3; seed++ {
+						cases = append(cases, listLong{n, 3, 12 * n, seed, int(seed % 2)})
+					}
+				}
+				var calls, maxLen int64
+				mc.ParallelFor(len(cases), r.Workers, func(i int) {
+					if f := checkListLong(cases[i]); f != nil {
+						r.Violation(mc.Case{Harness: "list-long", Trace: mc.J(cases[i]), Msg: f.Msg, Step: f.Step})
+					}
+					atomic.AddInt64(&calls, int64(cases[i].Steps))
+				})
+				_ = maxLen
+				r.Count("longest_list_reached", atomic.LoadInt64(&listLongMax))
+				r.Count("stale_cursor_uses", lcntLong.staleUses)
+				n := int64(len(cases))
+				r.AddEval(n, calls, calls, n)
+				r.Rule("mlink.List with three cursors: fixed pseudo-random walks of 12*N calls through the BFS alphabet (growth favoured, Truncate and Clear rare) with the length bound N = 17...130/1025 and the BFS's oracle after every call")
+				r.Sample(listLong{65, 3, 780, 2, 0})
+			},
+			Replay: func(c mc.Case) *mc.Failure {
+				var l listLong
+				if err := mc.Unmarshal(c.Trace, &l); err != nil {
+					return mc.Failf(-1, "bad trace: %v", err)
+				}
+				return checkListLong(l)
+			},
+		},
 		mc.Harness{
 			Name: "ring-long",
 			Explore: func(r *mc.Run) {
@@ -1012,6 +1102,75 @@ func main() {
 			},
 		},
 	)
+}
+
+// seqLong is a fixed pseudo-random walk on a stack or an mlink.Queue with a
+// large length bound.
+type seqLong struct {
+	Kind  string `json:"kind"`
+	Max   int    `json:"max_len"`
+	Steps int    `json:"steps"`
+	Seed  uint64 `json:"seed"`
+	Root  int    `json:"root"`
+}
+
+func checkSeqLong(l seqLong) *mc.Failure {
+	return mc.GuardTL("seq-long", l, 10*time.Minute, func() *mc.Failure {
+		inst, f := makeSeqBFS(&scfg{Kind: l.Kind, Max: l.Max}).Root(l.Root)
+		if f != nil {
+			return f
+		}
+		f, hist := mc.LongWalk[sop](inst, l.Steps, l.Seed, func(o sop) int {
+			switch o.K {
+			case "clear":
+				return 1
+			case "pop":
+				return 60
+			}
+			return 100 // push, add
+		})
+		if f != nil {
+			if len(f.Msg) > 400 {
+				f.Msg = f.Msg[:400] + "..."
+			}
+			f.Msg = fmt.Sprintf("%s: walk of %d calls, length bound %d, call %d; last calls %v: %s", l.Kind, l.Steps, l.Max, f.Step, hist[max(len(hist)-6, 0):], f.Msg)
+		}
+		return f
+	})
+}
+
+func seqLongHarness() mc.Harness {
+	return mc.Harness{
+		Name: "seq-long", HangLimit: 10 * time.Minute,
+		Explore: func(r *mc.Run) {
+			var cases []seqLong
+			for _, kind := range []string{"stack", "queue"} {
+				for _, n := range mc.Pick(r, []int{17, 33, 65, 130, 300}, []int{17, 33, 65, 130, 300, 1025, 5000}) {
+					for seed := uint64(1); seed <= 2; seed++ {
+						cases = append(cases, seqLong{kind, n, 8 * n, seed, int(seed % 2)})
+					}
+				}
+			}
+			var calls int64
+			mc.ParallelFor(len(cases), r.Workers, func(i int) {
+				if f := checkSeqLong(cases[i]); f != nil {
+					r.Violation(mc.Case{Harness: "seq-long", Trace: mc.J(cases[i]), Msg: f.Msg, Step: f.Step})
+				}
+				atomic.AddInt64(&calls, int64(cases[i].Steps))
+			})
+			n := int64(len(cases))
+			r.AddEval(n, calls, calls, n)
+			r.Rule("stack.Stack and mlink.Queue: fixed pseudo-random walks of 8*N calls (Push/Add favoured over Pop, Clear rare) with the length bound N = 17...300/5000 and the oracle of the history enumeration after every call")
+			r.Sample(seqLong{"queue", 65, 520, 1, 1})
+		},
+		Replay: func(c mc.Case) *mc.Failure {
+			var l seqLong
+			if err := mc.Unmarshal(c.Trace, &l); err != nil {
+				return mc.Failf(-1, "bad trace: %v", err)
+			}
+			return checkSeqLong(l)
+		},
+	}
 }
 
 func seqHarness(kind string) mc.Harness {
